@@ -51,6 +51,10 @@ class OSet:
         """shape has positive measure (assumption the harness makes)"""
         return True
 
+    def positive_at(self, p, prm, L):
+        """positivity of the fibre through point p (differs from positive() only for dependent products)"""
+        return self.positive(prm, L)
+
 
 class OInterval(OSet):
     dim = 1
@@ -256,14 +260,22 @@ class OProduct(OSet):
         na = sum(d for _, d in self.a_vars)
         return p[:na], p[na:]
 
-    def mem(self, p, prm, L, tol=0, strict=False):
+    def bind(self, p, prm):
         pa, pb = self.split(p)
         prm2 = dict(prm)
         k = 0
         for name, d in self.b_vars:
             prm2[name] = pb[k:k + d]
             k += d
+        return pa, pb, prm2
+
+    def mem(self, p, prm, L, tol=0, strict=False):
+        pa, pb, prm2 = self.bind(p, prm)
         return L.And(self.a.mem(pa, prm2, L, tol, strict), self.b.mem(pb, prm, L, tol, strict))
+
+    def positive_at(self, p, prm, L):
+        pa, pb, prm2 = self.bind(p, prm)
+        return L.And(self.a.positive_at(pa, prm2, L), self.b.positive_at(pb, prm, L))
 
 
 class OTranslate(OSet):
